@@ -43,7 +43,7 @@ class Unsupported(Exception):
     pass
 
 
-def build_model(net):
+def build_model(net, impedance_rating=False):
     """-> dict(nodes, branches, units, fixed) ; raises Unsupported"""
     bus_ok = {b: bool(net.bus.at[b, "in_service"]) for b in net.bus.index}
     parent = {b: b for b in net.bus.index}
@@ -122,7 +122,9 @@ def build_model(net):
         r = net.impedance.loc[i]
         if not r.in_service or not (bus_ok[r.from_bus] and bus_ok[r.to_bus]):
             continue
-        branches.append((("impedance", int(i)), find(r.from_bus), find(r.to_bus), r.sn_mva / r.xft_pu, 0.0, None))
+        # an impedance has no declared loading limit; impedance_rating=True reproduces the undeclared one of the OPF (sn_mva)
+        branches.append((("impedance", int(i)), find(r.from_bus), find(r.to_bus), r.sn_mva / r.xft_pu, 0.0,
+                         float(r.sn_mva) if impedance_rating else None))
     for i, a, b, z in zswitches:
         x = z / math.sqrt(1 + SWITCH_RX_RATIO_DCOPP ** 2)
         branches.append((("switch", int(i)), find(a), find(b), vn[a] ** 2 / x, 0.0, None))
@@ -407,10 +409,10 @@ def _solve_qp(c_lin, quad, G, h, A, rhs, bounds, x0, scale, unbounded_lp):
     return best
 
 
-def reference_optimum(net, maps, costs):
+def reference_optimum(net, maps, costs, impedance_rating=False):
     sn = float(net.sn_mva)
     try:
-        model = build_model(net)
+        model = build_model(net, impedance_rating)
     except Unsupported as e:
         return dict(status="unsupported:" + str(e))
     if self_check(net, model, sn) > 1.0:
